@@ -514,6 +514,8 @@ fn run_local_worker(worker: &Worker, id: usize, parker: Parker, abort_signal: Si
             .executor_context
             .msg_count
             .fetch_add(thread_msg_count, Ordering::Relaxed);
+        #[cfg(nexosim_verif)]
+        crate::verif::point(26, id, thread_msg_count as usize);
     };
 
     let result = panic::catch_unwind(AssertUnwindSafe(|| {
@@ -562,6 +564,8 @@ fn run_local_worker(worker: &Worker, id: usize, parker: Parker, abort_signal: Si
                 // thread that unparked the worker.
             } else {
                 pool_manager.begin_worker_search();
+                #[cfg(nexosim_verif)]
+                crate::verif::point(23, id, 0);
             }
 
             if abort_signal.is_set() {
@@ -603,7 +607,11 @@ fn run_local_worker(worker: &Worker, id: usize, parker: Parker, abort_signal: Si
 
                     // Since empty buckets are never pushed onto the injector
                     // queue, we should now have at least one task to process.
+                    #[cfg(nexosim_verif)]
+                    let verif_bucket_len = bucket_iter.len();
                     local_queue.extend(bucket_iter);
+                    #[cfg(nexosim_verif)]
+                    crate::verif::point(35, id, verif_bucket_len);
                 } else {
                     // The injector queue is empty. Try to steal from active
                     // siblings.
@@ -612,6 +620,8 @@ fn run_local_worker(worker: &Worker, id: usize, parker: Parker, abort_signal: Si
                         stealer
                             .steal_and_pop(local_queue, |n| n - n / 2)
                             .map(|(task, _)| {
+                                #[cfg(nexosim_verif)]
+                                crate::verif::point(36, id, task.id());
                                 let prev_task = fast_slot.replace(Some(task));
                                 assert!(prev_task.is_none());
                             })
@@ -620,6 +630,8 @@ fn run_local_worker(worker: &Worker, id: usize, parker: Parker, abort_signal: Si
                         // Give up if unsuccessful for too long.
                         if (Instant::now() - search_start) > MAX_SEARCH_DURATION {
                             pool_manager.end_worker_search();
+                            #[cfg(nexosim_verif)]
+                            crate::verif::point(29, id, 0);
                             break;
                         }
 
